@@ -244,7 +244,9 @@ pub(crate) mod inner {
             #[cfg(feature = "verif_hooks")]
             let _verif_span = super::verif::Span::enter();
             let mutex = self.0.get_or_init(Default::default);
-            let mut guard = mutex.write().unwrap();
+            // A formatter that can't be constructed panics while the lock is held (before anything is inserted),
+            // the cache is still consistent so don't let that poison every later formatting call.
+            let mut guard = mutex.write().unwrap_or_else(|err| err.into_inner());
             #[cfg(feature = "verif_hooks")]
             super::verif::point(super::verif::Point::Acquired);
             f(&mut guard)
